@@ -108,6 +108,9 @@ class ProtocolHandler;
  * Generic request for sending to and receiving from the bus.
  */
 class BusRequest {
+#ifdef EBUSD_VERIF
+  friend struct VerifAccess;  // verification harness access (no behaviour change)
+#endif
   friend class ProtocolHandler;
 
  public:
@@ -175,6 +178,9 @@ class BusRequest {
  * An active @a BusRequest that can be waited for.
  */
 class ActiveBusRequest : public BusRequest {
+#ifdef EBUSD_VERIF
+  friend struct VerifAccess;  // verification harness access (no behaviour change)
+#endif
   friend class ProtocolHandler;
 
  public:
@@ -251,6 +257,9 @@ class ProtocolListener {
  * Handles input from and output to eBUS with respect to the eBUS protocol.
  */
 class ProtocolHandler : public WaitThread, public DeviceListener {
+#ifdef EBUSD_VERIF
+  friend struct VerifAccess;  // verification harness access (no behaviour change)
+#endif
  public:
   /**
    * Construct a new instance.
